@@ -1039,6 +1039,10 @@ class Exec:
                 t = blk.term
                 if t and t[0] == "call" and t[1] is not None:
                     locs.add(_root_local(t[1]))
+                if t and t[0] == "call":
+                    for a in t[3]:
+                        if a[0] in ("copy", "move") and a[1][0] == "local" and is_mut_ref(fn.locals.get(a[1][1], "")):
+                            locs.add(a[1][1])
             assigned[head] = locs
         info = (headers, assigned, back)
         self.loopinfo[fn.name] = info
@@ -1091,17 +1095,32 @@ class Exec:
                     return
                 if self.havoc_loops and fr.bb not in fr.havocked:
                     fr.havocked = fr.havocked | {fr.bb}
+                    hook = getattr(self, "loop_hook", None)
+                    if hook is not None:
+                        hook("pre", self, st, fr, fr.bb, sorted(x for x in assigned[fr.bb] if x))
                     for n in sorted(assigned[fr.bb]):
                         if n is None or n == 0:
                             continue
                         ty = fn.locals.get(n, "?")
                         c = fr.locals.get(n)
-                        nv = self.sym(f"h{fr.bb}_{n}_{self.nfresh}", ty, st)
+                        base = f"h{fr.bb}_{n}_{self.nfresh}"
                         self.nfresh += 1
+                        old = st.cells.get(c) if c is not None else None
+                        if isinstance(old, Ref) and getattr(self, "havoc_pointees", False):
+                            # a reference held in a local that is (re)borrowed mutably in the loop: havoc the pointee
+                            tgt = self.read_ref(st, old)
+                            self.write_ref(st, old, self.havoc_like(st, tgt, base, strip_ref(ty)))
+                            continue
+                        if old is not None and getattr(self, "havoc_shape", False) and isinstance(old, Agg):
+                            nv = self.havoc_like(st, old, base, ty)
+                        else:
+                            nv = self.sym(base, ty, st)
                         if c is None:
                             fr.locals[n] = self.new_cell(st, nv)
                         else:
                             st.cells[c] = nv
+                    if hook is not None:
+                        hook("post", self, st, fr, fr.bb, sorted(x for x in assigned[fr.bb] if x))
             elif fr.bb in fr.visited:
                 raise Unsupported(f"irreducible revisit bb{fr.bb} in {fn.name}")
             fr.visited = fr.visited + (fr.bb,)
@@ -1337,6 +1356,21 @@ class Exec:
             else:
                 idx.setdefault((None, None, name) + tuple(tail), []).append(fn)
         return idx
+
+    def havoc_like(self, st, v, base, ty="?"):
+        """Fresh symbolic value with the same shape as v (scalars -> fresh constants of the same sort)."""
+        if isinstance(v, z3.ExprRef):
+            self.nfresh += 1
+            return z3.Const(f"{base}.{self.nfresh}", v.sort())
+        if isinstance(v, Agg) and v.variant is None:
+            return Agg(v.ty, None, [self.havoc_like(st, f, base + "." + (v.names[i] if v.names else str(i)))
+                                    for i, f in enumerate(v.fields)], v.names)
+        if isinstance(v, Seq):
+            self.nfresh += 1
+            t = z3.Const(f"{base}.seq{self.nfresh}", Val)
+            return Seq([("opq", t, self.uf("seq:len", Val, z3.BitVecSort(64))(t))])
+        self.nfresh += 1
+        return self.sym(f"{base}.{self.nfresh}", ty if ty else "?", st)
 
     def subrun(self, st, fn, args):
         """Run MIR function fn on args from (a copy of) the current state; returns return-path ends whose
